@@ -112,6 +112,15 @@ fn demo(which: &str) -> i32 {
                 Err(e) => { println!("D6: load error {e:?}"); 2 }
             }
         }
+        // D7 (C08): the typed conversion must reject a message whose functions use an undefined variable id
+        "D7" => {
+            let i = inst(vec![dv(0, Kind::Continuous, Some((0.0, 1.0)))], Function::from(Linear::single_term(5, 1.0)), vec![]);
+            let raw_ok = i.validate().is_ok();
+            match ommx::Instance::try_from(i) {
+                Ok(_) => { println!("D7 MANIFESTS: objective uses variable id 5, only id 0 is defined; v1::Instance::validate() ok={raw_ok}, but TryFrom<v1::Instance> accepted the message"); 1 }
+                Err(e) => { println!("D7 ok: rejected: {e}"); 0 }
+            }
+        }
         _ => { println!("unknown demo {which}"); 2 }
     }
 }
@@ -121,6 +130,6 @@ fn main() {
     if a.len() >= 3 && a[1] == "demo" {
         std::process::exit(demo(&a[2]));
     }
-    println!("usage: rx demo <D1|D2|D3|D13|D13u|D5a|D5c|D5d|D6>");
+    println!("usage: rx demo <D1|D2|D3|D7|D13|D13u|D5a|D5c|D5d|D6>");
     std::process::exit(2);
 }
